@@ -102,6 +102,10 @@ func stateTransitionsRoot(p *Program, id string, root *ssa.Function) []Obligatio
 		BoolAtom("selfIsVoter", "r.configuration.IsVoter[r.id]"),
 	}
 	iState, iSingle, iSelf := 0, 1, 2
+	// a won prevote that is still waiting for its election to start: the node is in the Candidate state of a term in
+	// which it may have run (and left) an election before
+	iLimbo := len(atoms)
+	atoms = append(atoms, BoolAtom("prevoteWonPending", "r.prevoteWon"))
 	var iQ []int
 	for k, q := range voc.quorum {
 		if k >= 3 {
@@ -191,9 +195,9 @@ func stateTransitionsRoot(p *Program, id string, root *ssa.Function) []Obligatio
 				continue
 			}
 			allowed = func(pt int) bool {
-				return sp.Val(pt, iState) == C && (sp.Val(pt, iSingle) == 1 || quorumRound(pt, true))
+				return sp.Val(pt, iState) == C && (sp.Val(pt, iSingle) == 1 || (quorumRound(pt, true) && sp.Val(pt, iLimbo) == 0))
 			}
-			what = "leader entry only as Candidate with a quorum of real votes of the current round (or as the single voter)"
+			what = "leader entry only as Candidate with a quorum of real votes of the current round, and not while a won prevote waits for its election to start (the Candidate state of a term whose earlier election was left), or as the single voter"
 		case "Candidate":
 			allowed = func(pt int) bool {
 				s := sp.Val(pt, iState)
